@@ -283,6 +283,15 @@ pub fn base_raw(quick: bool) -> Vec<Gen> {
             v.push(gen(format!("fixed overlap({nl} lits + match({len},{dist}) + lit + match)"), &[Plan::Fixed(t)]));
         }
     }
+    // ... and EVERY distance 1..=70 (and a lattice above) with the longest match right after exactly that many literals
+    for dist in (1..=70u16).chain([95, 96, 97, 127, 128, 129, 255, 256, 257]) {
+        let mut t: Vec<Tok> = (0..dist as u32).map(|i| Tok::Lit((i.wrapping_mul(2246822519) >> 9) as u8 | 1)).collect();
+        t.push(Tok::Match(258, dist));
+        t.push(Tok::Lit(0));
+        let mut g = gen(format!("overlap-all({dist} lits + match(258,{dist}) + lit)"), &[Plan::Fixed(t)]);
+        g.light = true;
+        v.push(g);
+    }
     // every codeword length 1..15 of a literal/length code and of a distance code USED in the middle of a stream
     // long enough for the decoders' fast loops (>= 15 input bytes and >= 260 bytes of output room left): second-level
     // table lookups for literals, lengths and distances
@@ -365,6 +374,28 @@ pub fn base_raw(quick: bool) -> Vec<Gen> {
             g.light = true;
             v.push(g);
         }
+    }
+    // dynamic headers whose FIRST code-length symbol is 16 ("repeat the previous length" with nothing before it), at
+    // every bit alignment (HCLEN 4..=12 moves the symbol by 3 bits each): invalid as soon as the symbol is there, but a
+    // decoder may only say so once it has it (truncations of these decide "needs more input" versus "data error")
+    for hclen in 4..=12usize {
+        let mut w = BitW::default();
+        w.put(1, 1);
+        w.put(2, 2);
+        w.put(0, 5); // HLIT = 257
+        w.put(0, 5); // HDIST = 1
+        w.put((hclen - 4) as u32, 4);
+        // code length code lengths in the order 16 17 18 0 8 7 ...: symbols 16 and 0 get 1 bit each
+        for i in 0..hclen {
+            w.put(if i == 0 || i == 3 { 1 } else { 0 }, 3);
+        }
+        w.put(1, 1); // symbol 16 (codes: 0 -> '0', 16 -> '1')
+        w.put(0, 2); // its repeat count
+        for _ in 0..40 {
+            w.put(0, 1);
+        }
+        let raw = w.finish();
+        v.push(Gen { name: format!("dyn(first code length symbol is 16, hclen={hclen})"), raw, expected: None, max_dist: 0, light: false });
     }
     // code-length sets that need the LARGEST two-level decoding tables (the classic "enough" question): every histogram
     // of the class {one code on each length of a subset of 1..=10} + {0..2 codes of 11, 14 bits, 0/2/4 of 15 bits} +
